@@ -13,7 +13,17 @@ CONFIG = dict(
              'cp-loaded-dict = couples with the pseudo-developer named; bd-out, dv-out, cp-out = counters, keys and dimensions outside the '
              'cast ranges (without key collisions); bd-malformed, cp-malformed = ragged or empty matrices, missing names, nil / empty people '
              'matrix, ownership of unknown files, FilesLines of the wrong length; bd-loaded-dict and bd-no-ownership = the two known '
-             'deviations (C17-K1, C17-K2). Non-trivial: burndown = a non-zero global cell and more than one cell, file or developer; '
+             'deviations (C17-K1, C17-K2). '
+             'Scale family (kinds sc-mx, sc-bd, sc-dv, sc-cp; harness/cmd/c17/scale.go): LARGE values on every size axis of the three result '
+             'types - matrix rows, matrix columns, one long row, burndown samples / bands / files / ownership-table entries / developers '
+             '(n x (n+2) interaction matrix), triangular histories, devs ticks / developers of one tick / languages of one developer, couples '
+             'files / developers / entries of one map row / both / a loaded dictionary - at the sizes 7..65 (all), c-1 | c | c+1 around 128, 256, '
+             '512, 1000 (one per axis, rotating with the seed), 1029 and one of 1023 / 1024 / 1025 / 2048 / 2051 per axis in the quick tier; '
+             'all of these plus 4095 .. 16385 and 32769 .. 100003 in the thorough tier (2^8, 2^15, 2^16 straddled; most sizes are not multiples '
+             'of 8; the last rows / columns / entries are never empty; cell values periodic with periods 2^k and 2^k+-1, cells at 2^31 and '
+             '2^32-1, rows whose stored cells sum to exact multiples of 2^32). Kinds ending in -xl (sizes above 4100 on the axes where the list '
+             'model is quadratic: map insertion, CSR slices) and histories wider than 8200 cells (Coq List.rev is quadratic) are judged by the '
+             'property oracle only: decoded == extracted normalise(input), extracted shape oracle on the printed grids. Non-trivial: burndown = a non-zero global cell and more than one cell, file or developer; '
              'devs = at least one (tick, developer) entry; couples = at least one file and one non-empty matrix row; matrix = non-zero and '
              'more than one cell. Distinct = distinct input value.',
         exhaustive_note='every matrix with 1..2 rows and 0..3 columns (2x3 only in the thorough tier) over the cells {-1, 0, 1, 2^32-1} through '
